@@ -169,6 +169,7 @@ func checkC12(w *World, r *Report) {
 	checkCloneWithCarries(w, r, "C12.5", "route", "scope", "tsr")
 	checkParamsSelector(w, r, "C12.6")
 	checkC12MemoInvalidation(w, r, cf)
+	checkTsrParamsRebuilt(w, r, "C12.8")
 }
 
 type exemption struct {
